@@ -37,8 +37,8 @@ def instantiations(tup, rich):
     for pos, k in enumerate(tup):
         if k == "r":
             o = list(R_INST)
-            if pos == len(tup) - 1 and nr >= 2:
-                o.append("cl")
+            if pos == len(tup) - 1 and len(tup) >= 2:
+                o.append("cl")  # shift/rotate counts: (r/m, cl) is a defined kind tuple
             opts.append(o)
         elif k == "m":
             opts.append(M_INST)
